@@ -176,6 +176,9 @@ func c14Run(fields []string, withEvent bool) string {
 
 func c14RunOnce(fields []string, withEvent bool) string {
 	node := sim.NewNode(distinctChain())
+	// in the renamed-columns variant the node also lists the receipts of a block last
+	// transaction first: a receipt belongs to the transaction it names, not to its place
+	node.ReverseReceipts = c14Rename
 	d := c14Decl(fields, withEvent)
 	w, err := NewWorld(quietT{}, []*SourceCfg{{Name: "src1", ChainID: 77, Batch: 2, Conc: 1, Node: node}}, []*refmodel.Decl{d})
 	if w != nil {
@@ -334,6 +337,7 @@ func TestC14_TwoIntegrations(t *testing.T) {
 		evA, evB := rapid.Bool().Draw(rt, "eventA"), rapid.Bool().Draw(rt, "eventB")
 		setA, setB := c14DrawSet(rt, evA, "a"), c14DrawSet(rt, evB, "b")
 		node := sim.NewNode(distinctChain())
+		node.ReverseReceipts = rapid.Bool().Draw(rt, "receiptslasttxfirst")
 		da, db := c14Decl(setA, evA), c14Decl(setB, evB)
 		da.Name, da.Table = "iga", "ta"
 		db.Name, db.Table = "igb", "tb"
